@@ -7,6 +7,7 @@ import AcraModel.CrossClient.Tls
 import AcraModel.CrossClient.BoxLaws
 import AcraModel.CrossClient.Box45
 import AcraModel.CrossClient.NoPanic
+import AcraModel.CrossClient.Compat
 import AcraModel.Crypto.Shim
 /-!
 # C02 — data protected for one client is never revealed under another identity
@@ -156,6 +157,33 @@ theorem cross_client_column_history {c : CryptoOps} (hl : SealLaws c) (hc : Seal
       (∃ m, process c (storeOf c pairs syms a) cont = .ok m) ∨ (∀ m, process c (storeOf c pairs syms b) cont ≠ .ok m)) :
     ∃ hit, columnAs c (storeOf c pairs syms) b buf = .ok buf hit :=
   cross_client_column hl hc (storeOf_separate hm hp hs hab) hpos
+
+/-- **Transparent column path behind the compatibility wrapper** (`OldContainerDetectorWrapper.OnColumn`,
+what both SQL proxies install). Besides serialized containers it looks for bare AcraStructs / AcraBlocks,
+wraps each into a container and offers it to the callbacks. If every container recognised in the column,
+and every slice of the column wrapped as a container of either kind, is something A can read or B cannot
+read anyway, the column comes back byte for byte as stored: no error, no panic, nothing replaced. -/
+theorem cross_client_column_compat {c : CryptoOps} (hl : SealLaws c) (hc : SealCommit c) {kvA kvB : KeyView}
+    (hsep : KeysSeparate c kvA kvB) {buf : Bytes}
+    (hpos : ∀ i, i ≤ buf.length → ∀ cont adv, extractContainer (buf.drop i) = .ok (adv, cont) →
+      (∃ m, process c kvA cont = .ok m) ∨ (∀ m, process c kvB cont ≠ .ok m))
+    (hbare : ∀ i l id s, serialize ((buf.drop i).take l) id = .ok s →
+      (∃ m, process c kvA s = .ok m) ∨ (∀ m, process c kvB s ≠ .ok m)) :
+    ∃ hit, onColumnCompat [decryptCallback c kvB] buf = .ok buf hit := by
+  have key : ∀ s, ((∃ m, process c kvA s = .ok m) ∨ (∀ m, process c kvB s ≠ .ok m)) →
+      ∀ cb, cb ∈ [decryptCallback c kvB] → cb s = .same := by
+    intro s h cb hcb
+    simp only [List.mem_singleton] at hcb
+    subst hcb
+    apply decryptCallback_same
+    intro m
+    rcases h with ⟨m', hm'⟩ | hno
+    · rw [process_cross hl hc hsep hm']
+      simp
+    · exact hno m
+  exact onColumnCompat_all_same _ buf
+    (fun i hi cont adv he => key cont (hpos i hi cont adv he))
+    (fun i l id s hs => key s (hbare i l id s hs))
 
 /-! ## blind index -/
 
